@@ -61,7 +61,10 @@ class C20(Check):
             ops, live = [], 0
             for i in range(rng.randint(2, 10)):
                 r = rng.random()
-                if r < 0.25:
+                if r < 0.08:
+                    # a second look at the terminal that somebody else has set up (the documented way for parallel users)
+                    ops.append(("toop", 0, rng.choice([2, 4, 8])))
+                elif r < 0.25:
                     ops.append(("toop", rng.choice([2, 4, 8]), rng.choice([0x12, 0x14, 0x18, 0x11, 2, 4, 8, 1])))
                 elif live and r < 0.5:
                     ops.append(("unmap", rng.randrange(live)))
@@ -276,12 +279,17 @@ class C20(Check):
         al = {"state": 2}
 
         class FakeEc:
+            def get_mbx_lock(self, no):
+                return None
+
             async def roundtrip(self, cmd, pos, offset, *args, data=None, idx=0):
                 writes.append((cmd.name, offset, args))
                 if offset == 0x130 and cmd.name == "FPRD":       # AL status (and status code) of a conformant terminal
                     return (al["state"], 0)
                 if offset == 0x120 and cmd.name == "FPWR":
                     al["state"] = args[1] & 15                    # the acknowledge (0x11) clears the error flag
+                if offset == 4 and cmd.name == "FPRD":
+                    return (case["n"],)                            # the number of FMMUs the terminal has
                 return ()
 
         if any(op[0] == "toop" for op in case["ops"]):
@@ -297,7 +305,14 @@ class C20(Check):
             for op in case["ops"]:
                 if op[0] == "toop":
                     al["state"] = op[2]
-                    await t.to_operational(MachineState(op[1]))
+                    if op[1] == 0:
+                        async def nothing(*a, **kw):
+                            return None
+                        t.read_eeprom = nothing
+                        t.parse_sync_managers = lambda sm: None
+                        await t.gentle_initialize(absolute=1001)
+                    else:
+                        await t.to_operational(MachineState(op[1]))
                     continue
                 if op[0] == "map":
                     cm = t.map_fmmu(op[2], op[1])
@@ -396,7 +411,7 @@ class C20(Check):
         return ("map(write/read)/unmap(k-th live) sequences of length 1-12 on terminals with 1-4 FMMUs (thorough: all sequences up to length 5 exhaustively); "
                 "plus scripts of up to 6 concurrent mapping tasks whose bus writes complete when the script says (a task starts while the configuration write "
                 "of another is outstanding, gives its mapping up while others start); plus sequences in which the terminal is brought to a state again (to_operational, "
-                "with and without an error flag to acknowledge) while mappings are alive; plus scripts of whole sync groups sharing one terminal (each maps its output and / or input image through "
+                "with and without an error flag to acknowledge - or looked at again with gentle_initialize) while mappings are alive; plus scripts of whole sync groups sharing one terminal (each maps its output and / or input image through "
                 "SyncGroupBase.map_fmmu and is refused as a whole when no FMMU is left); non-trivial = at least two map operations; distinct by content")
 
     def distribution(self, cases, observed):
